@@ -316,13 +316,67 @@ def probe(port, version):
     return False
 
 
+class AgedConnection:
+    """one keep-alive connection that lives as long as the shard and posts the same 20 kB diagram before every
+    burst and once more when it is at least 11 s old; a request on a connection the server has closed in the
+    meantime (it may do that with idle connections) says nothing and is repeated on a fresh connection"""
+
+    def __init__(self, ctx, port):
+        self.ctx = ctx
+        self.port = port
+        rows = ['+' + '-' * 60 + '+'] + ['| %04d %s|' % (i, ('label ' * 9)) for i in range(300)] + ['+' + '-' * 60 + '+']
+        self.doc = gen.text_of(rows)
+        r = ctx.conv(self.doc, entry=0)
+        self.want = r.out if r.ok else None
+        self.t0 = time.time()
+        self.c = http.client.HTTPConnection('127.0.0.1', port, timeout=120)
+        self.posts = 0
+
+    def post(self):
+        """None, or what is wrong with the answer"""
+        if self.want is None:
+            return None
+        age = time.time() - self.t0
+        try:
+            self.c.request('POST', '/', body=self.doc.encode())
+            r = self.c.getresponse()
+            body = r.read()
+        except (OSError, http.client.HTTPException):
+            self.ctx.tag('aged_connection_was_closed')
+            self.c.close()
+            self.c = http.client.HTTPConnection('127.0.0.1', self.port, timeout=120)
+            self.t0 = time.time()
+            return None
+        self.posts += 1
+        self.ctx.tag('posts_on_aged_connection')
+        self.ctx.maxi('age_of_reused_connection_s', int(age))
+        if r.status != 200 or body.decode('utf-8', 'replace') != self.want:
+            return 'POST of %d bytes on a keep-alive connection that is %.1f s old (request number %d on it): status %d, %s' % (
+                len(self.doc), age, self.posts, r.status, 'body differs from the library document (%d vs %d bytes)' % (len(body), len(self.want.encode())))
+        return None
+
+    def finish(self):
+        wait = 11.5 - (time.time() - self.t0)
+        if wait > 0:
+            time.sleep(wait)
+        v = self.post()
+        self.c.close()
+        return v
+
+
 def run_shard(ctx, shard):
     rng = rng_for(ctx.seed, ID, shard['name'])
     circles = ctx.extra['circles']
     version = ctx.extra['version']
     srv = Server(shard.get('binary') or ctx.extra['server'], env=shard.get('env'))
+    aged = None
     try:
         for burst in range(shard['bursts']):
+            if aged is None or aged.port != srv.port:
+                aged = AgedConnection(ctx, srv.port)
+            v = aged.post()
+            if v:
+                ctx._violation({'aged_connection': True, 'burst': burst}, v)
             nclients = rng.choice(shard['clients'])
             results = []
             plans = [make_plan(rng, ctx, circles, shard['per_client'], shard.get('heavy', True)) for _ in range(nclients)]
@@ -354,6 +408,10 @@ def run_shard(ctx, shard):
                 ctx.tag('probes_answered')
             else:
                 ctx._violation({'burst': burst, 'clients': nclients}, 'the server does not answer a GET within 3 x 30 s after a burst of %d clients' % nclients)
+        if aged is not None and srv.alive():
+            v = aged.finish()
+            if v:
+                ctx._violation({'aged_connection': True, 'burst': 'after the last'}, v)
         ctx.sample({'server_port': srv.port, 'bursts': shard['bursts'], 'clients': shard['clients']})
     finally:
         srv.stop()
